@@ -50,7 +50,7 @@ def generate(gens, tier, res):
         cfg = json.load(open(os.path.join(SPECS, mod + '.json')))
         workers = 1 if n <= 400 else 8
         per = (n + workers - 1) // workers
-        code, out = tlc(mod, args=['-simulate', 'num=%d' % per, '-depth', str(depth), '-seed', str(seed() * 7919 + 13)],
+        code, out = tlc(mod, args=['-deadlock', '-simulate', 'num=%d' % per, '-depth', str(depth), '-seed', str(seed() * 7919 + 13)],
                         workers=workers, timeout=900)
         bs = behaviours(out)
         if not bs:
@@ -152,13 +152,21 @@ def run(pid, tier, spec, replay_file=None):
     known_hits = []
     drift = []
     stuck = 0
+    nondet = 0
     validated = 0
     events = 0
     samples = []
     kf = [f for f in known_findings().get('findings', []) if f.get('property') == pid]
     for part, reports, lines in outs:
+        byid = {b['id']: b for b in part}
         for r in reports:
             if r.get('drift'):
+                # a purge without a cache name visits the caches in the iteration order of a sync.Map, which
+                # nobody controls: a script containing one may legitimately be followed in another order
+                steps = byid[r['id']]['steps'][: r.get('drift_step', 0) + 1]
+                if any(s.get('a') == 'PurgeStart' and s.get('d') == '' for s in steps):
+                    nondet += 1
+                    continue
                 drift.append({'id': r['id'], 'drift': r['drift']})
             if r.get('stuck'):
                 stuck += 1
@@ -230,6 +238,7 @@ def run(pid, tier, spec, replay_file=None):
         'replayed_steps': total_steps,
         'replayed_steps_followed_exactly': followed,
         'conformance_drift': len(drift),
+        'scripts_with_uncontrollable_purge_order': nondet,
         'drift_samples': drift[:5],
         'observed_events_validated': events,
         'invariants_evaluated_on_real_traces': invs,
